@@ -59,6 +59,8 @@ type Server struct {
 	rpcs     int
 	reads    int
 	pktOut   [][]byte
+	pktOutAt []time.Time
+	writeEnd time.Time // when the last Write RPC was answered
 	last     time.Time
 	streams  map[int]p4.P4Runtime_StreamChannelServer
 	nstream  int
@@ -396,7 +398,7 @@ func (s *Server) Write(ctx context.Context, req *p4.WriteRequest) (*p4.WriteResp
 	defer s.mu.Unlock()
 
 	s.touch()
-	defer s.touch()
+	defer func() { s.touch(); s.writeEnd = time.Now() }()
 
 	s.rpcs++
 	rpc := s.rpcs
@@ -604,6 +606,7 @@ func (s *Server) StreamChannel(srv p4.P4Runtime_StreamChannelServer) error {
 		case *p4.StreamMessageRequest_Packet:
 			s.mu.Lock()
 			s.pktOut = append(s.pktOut, append([]byte(nil), x.Packet.Payload...))
+			s.pktOutAt = append(s.pktOutAt, time.Now())
 			s.touch()
 			s.mu.Unlock()
 		}
@@ -645,6 +648,8 @@ type State struct {
 	Rpcs     int
 	Reads    int
 	PktOut   [][]byte
+	PktOutAt []time.Time
+	WriteEnd time.Time
 	Streams  int
 }
 
@@ -684,6 +689,8 @@ func (s *Server) Snapshot() State {
 	}
 
 	st.PktOut = append(st.PktOut, s.pktOut...)
+	st.PktOutAt = append(st.PktOutAt, s.pktOutAt...)
+	st.WriteEnd = s.writeEnd
 
 	return st
 }
